@@ -488,6 +488,75 @@ def run_listbuild_case(sh, case):
     G.unload(mod)
 
 
+FOREIGN_SRC = """
+from pymtl3 import *
+class FIfc(Interface):
+  def construct(s):
+    s.d = InPort(4)
+class FMon(Component):
+  def construct(s):
+    s.x = Wire(4)
+class FInner(Component):
+  def construct(s):
+    s.w = Wire(8)
+class FDut(Component):
+  def construct(s):
+    s.in_ = InPort(8); s.inner = FInner()
+    s.many = [FInner() for _ in range(2)]
+class FTop(Component):
+  def construct(s, what):
+    s.dut = FDut()
+    # a test harness hangs probes and monitors onto the component it wraps
+    if 'port' in what:  s.dut.probe = OutPort(8)
+    if 'comp' in what:  s.dut.mon = FMon()
+    if 'ifc' in what:   s.dut.mon_ifc = FIfc()
+    if 'deep' in what:  s.dut.inner.probe2 = Wire(4)
+    if 'list' in what:  s.dut.many[1].taps = [Wire(2) for _ in range(2)]
+"""
+
+
+def run_foreign_assign_case(sh, case):
+  """hardware assigned to an attribute of ANOTHER object than the one whose construct() is running (a harness hanging a probe port,
+  a monitor component, an interface, a list of wires onto the component it wraps, one or two levels down): the design is refused,
+  or every object's parent is the object its name's prefix evaluates to, the host component and the level follow from the name"""
+  from vlib import specgen as G
+  from pymtl3.dsl.Connectable import Signal
+  rng = sh.rng("foreign", case)
+  what = [k for k in ("port", "comp", "ifc", "deep", "list") if rng.random() < 0.5] or ["port"]
+  mod = G.load_source(FOREIGN_SRC, "c14foreign")
+  try:
+    try:
+      top = mod.FTop(what); top.elaborate()
+    except Exception as e:
+      sh.count("foreign_assignment_designs_refused"); return
+    sh.count("foreign_assignment_designs")
+    for o in top.get_all_object_filter(lambda x: True):
+      r = repr(o)
+      if r == "s": continue
+      sh.count("objects_roundtripped")
+      try: back = eval(r, {"s": top})
+      except Exception as e: back = e
+      if back is not o:
+        sh.violation("eval-of-name-yields-other-object", {"name": r, "stream": "foreign-assignment", "assigned": what}, case=("foreign", case)); return
+      if isinstance(o, Signal) and o._dsl.slice is not None: continue
+      prefix = r[:r.rindex(".")]
+      exp_parent = eval(prefix, {"s": top})
+      if o.get_parent_object() is not exp_parent:
+        sh.violation("parent-inconsistent-with-name", {"name": r, "got": repr(o.get_parent_object()), "expected": prefix, "stream": "foreign-assignment", "assigned": what}, case=("foreign", case)); return
+      # host: the nearest component on the way up the NAME
+      host = exp_parent
+      while not host.is_component(): host = host.get_parent_object()
+      if not o.is_component():
+        if o.get_host_component() is not host:
+          sh.violation("host-component-inconsistent-with-name", {"name": r, "got": repr(o.get_host_component()), "expected": repr(host), "stream": "foreign-assignment"}, case=("foreign", case)); return
+      else:
+        lvl = r.count(".")
+        if o.get_component_level() != lvl:
+          sh.violation("component-level-inconsistent-with-name", {"name": r, "got": o.get_component_level(), "expected": lvl, "stream": "foreign-assignment"}, case=("foreign", case)); return
+  finally:
+    G.unload(mod)
+
+
 def run_fieldname_case(sh, case):
   """bitstruct fields named like attributes of the signal classes ( inverse, get_type, elaborate ... ): the field signal s.x.<f>
   exists, is named and evaluates back - or the signal of that struct type is refused when it is created"""
@@ -525,6 +594,7 @@ def run_fieldname_case(sh, case):
 def run_shard(sh):
   for case in range(6 if sh.tier == "quick" else 40):
     if sh.only is None: run_fieldname_case(sh, sh.idx * 100 + case)
+    if sh.only is None: run_foreign_assign_case(sh, sh.idx * 100 + case)
   for case in range(4):
     if sh.only is None: run_adapter_case(sh, case)
   for case in range(8 if sh.tier == "quick" else 50):
